@@ -95,6 +95,50 @@ func ruleAttacks(c *vf.Ctx, x *chain.Explorer, w *chain.World, path []string) {
 			c.Count("rule_attack_rejected", 1)
 		}
 	}
+	// formation rules (independent of existing contracts)
+	one := types.NewCurrency64(1)
+	if h < w.Net.HardforkV2.RequireHeight {
+		bc := w.NewBlockCtx()
+		if chain.V1FormAbs(h+1, h+3, 100).Do(bc) && len(bc.V1) == 1 {
+			base := bc.V1[0]
+			mk := func(f func(fc *types.FileContract)) chain.Use {
+				t := base
+				t.FileContracts = append([]types.FileContract(nil), base.FileContracts...)
+				t.FileContracts[0].ValidProofOutputs = append([]types.SiacoinOutput(nil), base.FileContracts[0].ValidProofOutputs...)
+				t.FileContracts[0].MissedProofOutputs = append([]types.SiacoinOutput(nil), base.FileContracts[0].MissedProofOutputs...)
+				f(&t.FileContracts[0])
+				t.Signatures = nil
+				w.SignV1Whole(&t)
+				return chain.Use{Name: "v1form", V1: &t}
+			}
+			try("v1 formation (control)", mk(func(fc *types.FileContract) {}), true)
+			try("v1 formation valid outputs exceed payout minus tax", mk(func(fc *types.FileContract) { fc.ValidProofOutputs[0].Value = fc.ValidProofOutputs[0].Value.Add(one) }), false)
+			try("v1 formation valid outputs below payout minus tax", mk(func(fc *types.FileContract) { fc.ValidProofOutputs[0].Value = fc.ValidProofOutputs[0].Value.Sub(one) }), false)
+			try("v1 formation missed outputs exceed payout minus tax", mk(func(fc *types.FileContract) { fc.MissedProofOutputs[0].Value = fc.MissedProofOutputs[0].Value.Add(one) }), false)
+			try("v1 formation missed outputs below payout minus tax", mk(func(fc *types.FileContract) { fc.MissedProofOutputs[0].Value = fc.MissedProofOutputs[0].Value.Sub(one) }), false)
+			try("v1 formation window ends where it begins", mk(func(fc *types.FileContract) { fc.WindowEnd = fc.WindowStart }), false)
+		}
+	}
+	if h >= w.Net.HardforkV2.AllowHeight {
+		bc := w.NewBlockCtx()
+		if chain.V2FormAbs(h+1, h+3, 100).Do(bc) && len(bc.V2) == 1 {
+			base := bc.V2[0]
+			mk := func(f func(fc *types.V2FileContract)) chain.Use {
+				t := base.DeepCopy()
+				fc := &t.FileContracts[0]
+				f(fc)
+				w.SignContract(fc, keyIdx(w, fc.RenterPublicKey), keyIdx(w, fc.HostPublicKey))
+				w.SignV2(&t)
+				return chain.Use{Name: "v2form", V2: &t}
+			}
+			try("v2 formation (control)", mk(func(fc *types.V2FileContract) {}), true)
+			try("v2 formation missed host value exceeds host output", mk(func(fc *types.V2FileContract) { fc.MissedHostValue = fc.HostOutput.Value.Add(one) }), false)
+			try("v2 formation missed host value equals host output (control)", mk(func(fc *types.V2FileContract) { fc.MissedHostValue = fc.HostOutput.Value }), true)
+			try("v2 formation total collateral exceeds host output", mk(func(fc *types.V2FileContract) { fc.TotalCollateral = fc.HostOutput.Value.Add(one) }), false)
+			try("v2 formation filesize exceeds capacity", mk(func(fc *types.V2FileContract) { fc.Filesize = fc.Capacity + 1 }), false)
+			try("v2 formation expiration not after proof height", mk(func(fc *types.V2FileContract) { fc.ExpirationHeight = fc.ProofHeight }), false)
+		}
+	}
 	if h < w.Net.HardforkV2.RequireHeight {
 		for _, e := range w.Ref.Live(chain.KFC) {
 			fce, ok := w.Store.FC[types.FileContractID(e.ID)]
@@ -174,6 +218,19 @@ func ruleAttacks(c *vf.Ctx, x *chain.Explorer, w *chain.World, path []string) {
 						rev.TotalCollateral = one
 					}
 				}), false)
+				if h >= w.Net.HardforkV2.EphemeralOutputHeight && !fc.MissedHostValue.IsZero() && fc.HostOutput.Value.Cmp(fc.MissedHostValue) >= 0 {
+					try("v2 revision leaves the missed host value above the host output", mk(func(rev *types.V2FileContract) {
+						d := rev.HostOutput.Value.Sub(rev.MissedHostValue).Add(one)
+						rev.HostOutput.Value = rev.HostOutput.Value.Sub(d)
+						rev.RenterOutput.Value = rev.RenterOutput.Value.Add(d)
+					}), false)
+					try("v2 revision lowers the host output exactly to the missed host value (control)", mk(func(rev *types.V2FileContract) {
+						d := rev.HostOutput.Value.Sub(rev.MissedHostValue)
+						rev.HostOutput.Value = rev.HostOutput.Value.Sub(d)
+						rev.RenterOutput.Value = rev.RenterOutput.Value.Add(d)
+					}), true)
+				}
+				try("v2 revision expiration not after proof height", mk(func(rev *types.V2FileContract) { rev.ExpirationHeight = rev.ProofHeight }), false)
 				try("v2 revision filesize exceeds capacity", mk(func(rev *types.V2FileContract) { rev.Filesize = rev.Capacity + 1 }), false)
 				try("v2 revision decreases capacity", mk(func(rev *types.V2FileContract) {
 					if rev.Capacity > 0 {
